@@ -266,6 +266,7 @@ impl Model for CacheModel {
                     "ALIVE" => ChangeKind::Alive,
                     "DISPOSED" => ChangeKind::NotAliveDisposed,
                     "UNREGISTERED" => ChangeKind::NotAliveUnregistered,
+                    "DISPOSED_UNREGISTERED" => ChangeKind::NotAliveDisposedUnregistered,
                     _ => ChangeKind::NotAliveDisposedUnregistered,
                 };
                 let ts = op["ts"].as_u64().unwrap();
